@@ -52,6 +52,9 @@ var c10Bad = []string{
 	// cancellation striking inside memoizable calls (frames rec(16)..rec(13) in flight), at 1/4, 1/2 and 3/4 of the evaluation
 	`CANCEL:25:println(rec(16))`, `CANCEL:50:println(rec(16))`, `CANCEL:75:println(rec(16))`,
 	`break`, `if true { continue }`, `func() { break }()`, `for true { func() { continue }() }`,
+	// depth overflow while the active frame belongs to a function defined outside this session's environment tree:
+	// a grol-defined library function, a function made by unjson()
+	`LIBDEEP`, `unjson("func(n) { self(n + 1) }")(0)`, `printf("%d", func() { rr = func(n) { self(n + 1) }; rr(0) }())`,
 	`NESTDEEP`, // (thorough tier only, kept last) recursion wrapped in 6000 nested brackets: the evaluator's nesting bound, not MaxDepth, stops it
 }
 
@@ -124,6 +127,13 @@ func c10Step(x *sess, in string) stepRec {
 			rec.out = ""
 		}
 		return rec
+	}
+	if in == "LIBDEEP" {
+		var kv []string
+		for i := 0; i < 100; i++ {
+			kv = append(kv, fmt.Sprintf("%d: %d", i, i))
+		}
+		in = "keys({" + strings.Join(kv, ", ") + "})" // keys() is written in grol and recurses once per entry
 	}
 	if in == "NESTDEEP" {
 		in = "func nd(n) { " + strings.Repeat("[", 6000) + "nd(n + 1)" + strings.Repeat("]", 6000) + " }; nd(0)"
